@@ -291,6 +291,13 @@ def accum_pass(run: Run, pkg: Package, funcs: List[FunctionInfo]) -> int:
                             continue
                         whole = [a for a in list(c.args) + [k.value for k in c.keywords] if isinstance(a, ast.Name) and a.id == name]
                         if not whole:
+                            # ... or the whole list joined / converted inside the argument: write(sep.join(name) + ...)
+                            for a in list(c.args) + [k.value for k in c.keywords]:
+                                for m in ast.walk(a):
+                                    if isinstance(m, ast.Call) and isinstance(m.func, ast.Attribute) and m.func.attr == "join" and len(m.args) == 1 \
+                                            and isinstance(m.args[0], ast.Name) and m.args[0].id == name:
+                                        whole.append(m.args[0])
+                        if not whole:
                             continue
                         fn = c.func
                         sink = None
